@@ -366,4 +366,126 @@ theorem cqes_eq (evs : List Ev) : cqeResults evs = evs.flatMap evCqe := by
   | nil => rfl
   | cons e es ih => cases e <;> simp [List.flatMap_cons, List.filterMap_cons, evCqe, ih]
 
+/-- the ledger counts agree with the request's pointer fields -/
+structure Rel (q : Req) (l : Ledger) : Prop where
+  bad : l.badFree = 0
+  pathH : q.path = .heap → l.get (pathRole q.op) = 1 ∧ (q.cb = true ∨ q.op = .mkdtemp ∨ q.op = .mkstemp)
+  pathS : l.path + l.path2 = if q.path = .heap then 1 else 0
+  pathU : q.path = .user → q.cb = false ∧ q.op ≠ .mkdtemp ∧ q.op ≠ .mkstemp
+  bufs : l.bufs = if q.bufs = .heap then 1 else 0
+  statx : l.statx = if q.ptr = .statx then 1 else 0
+  res : l.res = if q.ptr = .res then 1 else 0
+  dentsY : q.ptr = .dents → q.op = .scandir ∧ 0 ≤ q.result ∧ (q.nbufs : Int) ≤ q.result ∧ l.dents = 1 ∧
+            l.dent = q.result.toNat - (q.nbufs - 1)
+  dentsN : q.ptr ≠ .dents → l.dents = 0 ∧ l.dent = 0
+  name : l.name = if q.op = .readdir ∧ q.ptr = .dir ∧ 0 < q.result then q.result.toNat else 0
+  dirY : q.ptr = .dir → l.dir = 1 ∧ l.dirstream = 1 ∧ (q.op = .opendir ∨ q.op = .readdir ∨ q.op = .closedir)
+  heapOp : q.ptr = .statx ∨ q.ptr = .res → q.op ≠ .opendir ∧ q.op ≠ .closedir ∧ q.op ≠ .readdir ∧ q.op ≠ .scandir
+  rdPtr : q.op = .readdir → q.ptr = .null ∨ q.ptr = .dir
+  scPtr : q.op = .scandir → q.ptr = .null ∨ q.ptr = .dents
+
+
+set_option hygiene false in
+macro "cl_tail" : tactic => `(tactic|
+  (by_cases hk : pathKind op = .two <;> cases path <;> cases bufs <;>
+      simp [hk, pathRole] at hb h2 h3 h4 h5 ⊢ <;>
+      simp [cleanup, freePath, Ledger.free, Ledger.set, Ledger.get, Ledger.bad, Ledger.reqOwned, Ledger.userOwned, pathRole, hk, *] <;>
+      (try omega)))
+
+set_option hygiene false in
+macro "cl_tail0" : tactic => `(tactic|
+  (cases path <;> cases bufs <;>
+      simp [pathRole, pathKind] at hb h2 h3 h4 h5 ⊢ <;>
+      simp [cleanup, freePath, Ledger.free, Ledger.set, Ledger.get, Ledger.bad, Ledger.reqOwned, Ledger.userOwned, pathRole, pathKind, *] <;>
+      (try omega)))
+
+set_option maxHeartbeats 1000000 in
+theorem cleanup_of_rel (s : St) (ha : Rel s.req s.l) (hb : s.req.bufs ≠ .user) :
+    (cleanup s).l.reqOwned = 0 ∧ (cleanup s).l.badFree = 0 ∧ (cleanup s).l.userOwned = s.l.userOwned := by
+  obtain ⟨⟨op, cb, path, np, bufs, ptr, res, nb⟩, l, ph, ac, rg, cbs, cl⟩ := s
+  obtain ⟨l1, l2, l3, l4, l5, l6, l7, l8, l9, l10, l11⟩ := l
+  obtain ⟨h1, h2, h3, h4, h5, h6, h7, h8, h9, h10, h11, h12, h13, h14⟩ := ha
+  simp only [Ledger.get] at *
+  cases ptr
+  case null =>
+    simp at h6 h7 h9 h10
+    obtain ⟨h9a, h9b⟩ := h9
+    subst h1 h6 h7 h9a h9b h10
+    clear h8 h11 h12 h13 h14
+    cl_tail
+  case statbuf =>
+    simp at h6 h7 h9 h10 h13 h14
+    obtain ⟨h9a, h9b⟩ := h9
+    subst h1 h6 h7 h9a h9b h10
+    clear h8 h11 h12
+    cl_tail
+  case statx =>
+    simp at h6 h7 h9 h10 h12
+    obtain ⟨h9a, h9b⟩ := h9
+    obtain ⟨o1, o2, o3, o4⟩ := h12
+    subst h1 h6 h7 h9a h9b h10
+    clear h8 h11 h13 h14
+    cl_tail
+  case res =>
+    simp at h6 h7 h9 h10 h12
+    obtain ⟨h9a, h9b⟩ := h9
+    obtain ⟨o1, o2, o3, o4⟩ := h12
+    subst h1 h6 h7 h9a h9b h10
+    clear h8 h11 h13 h14
+    cl_tail
+  case dents =>
+    simp at h6 h7 h8 h10
+    obtain ⟨ho, hr0, hnb, h8a, h8b⟩ := h8
+    subst h1 h6 h7 ho h8a h10
+    clear h9 h11 h12 h13 h14
+    cl_tail0
+  case dir =>
+    simp at h6 h7 h9 h10 h11
+    obtain ⟨h9a, h9b⟩ := h9
+    obtain ⟨d1, d2, ho⟩ := h11
+    subst h1 h6 h7 h9a h9b d1 d2
+    clear h8 h12 h13 h14
+    rcases ho with ho | ho | ho <;> subst ho <;> simp at h10
+    · subst h10; cl_tail0
+    · by_cases hr : 0 < res <;> simp [hr] at h10 <;> subst h10 <;> cl_tail0
+    · subst h10; cl_tail0
+
+theorem next_rel (s : St) (ha : Rel s.req s.l) (hop : s.req.op = .scandir) :
+    Rel (scandirNext s).1.req (scandirNext s).1.l ∧ (scandirNext s).1.req.bufs = s.req.bufs := by
+  obtain ⟨⟨op, cb, path, np, bufs, ptr, res, nb⟩, l, ph, ac, rg, cbs, cl⟩ := s
+  obtain ⟨l1, l2, l3, l4, l5, l6, l7, l8, l9, l10, l11⟩ := l
+  simp only [] at hop
+  subst hop
+  unfold scandirNext
+  simp only []
+  split
+  · exact ⟨ha, rfl⟩
+  · split
+    · exact ⟨ha, rfl⟩
+    · rename_i hneg hnn
+      obtain ⟨h1, h2, h3, h4, h5, h6, h7, h8, h9, h10, h11, h12, h13, h14⟩ := ha
+      simp only [Ledger.get] at *
+      have hp : ptr = .dents := by
+        rcases (by simpa using h14 : ptr = .null ∨ ptr = .dents) with h | h
+        · exact absurd h hnn
+        · exact h
+      subst hp
+      simp at h6 h7 h8 h10
+      obtain ⟨hr0, hnb, h8a, h8b⟩ := h8
+      subst h1 h6 h7 h8a h10
+      clear h9 h11 h12 h13 h14 hnn
+      simp [pathRole, pathKind] at h2 h4
+      by_cases hpos : 0 < nb
+      · have hl7 : ¬ l7 = 0 := by omega
+        split
+        · refine ⟨⟨?_, ?_, ?_, ?_, ?_, ?_, ?_, ?_, ?_, ?_, ?_, ?_, ?_, ?_⟩, rfl⟩ <;>
+            simp [Ledger.free, Ledger.get, Ledger.set, Ledger.bad, pathRole, pathKind, hpos, hl7] <;> (try omega) <;> (try assumption)
+        · refine ⟨⟨?_, ?_, ?_, ?_, ?_, ?_, ?_, ?_, ?_, ?_, ?_, ?_, ?_, ?_⟩, rfl⟩ <;>
+            simp [Ledger.free, Ledger.get, Ledger.set, Ledger.bad, pathRole, pathKind, hpos, hl7] <;> (try omega) <;> (try assumption)
+      · split
+        · refine ⟨⟨?_, ?_, ?_, ?_, ?_, ?_, ?_, ?_, ?_, ?_, ?_, ?_, ?_, ?_⟩, rfl⟩ <;>
+            simp [Ledger.free, Ledger.get, Ledger.set, Ledger.bad, pathRole, pathKind, hpos] <;> (try omega) <;> (try assumption)
+        · refine ⟨⟨?_, ?_, ?_, ?_, ?_, ?_, ?_, ?_, ?_, ?_, ?_, ?_, ?_, ?_⟩, rfl⟩ <;>
+            simp [Ledger.free, Ledger.get, Ledger.set, Ledger.bad, pathRole, pathKind, hpos] <;> (try omega) <;> (try assumption)
+
 end UvModel.FsReq
